@@ -308,6 +308,14 @@ def run_one(net, prefix, op, dev, F_cache, res):
             stubs = [i for i in reach if not sd.node_data(i)["expanded"]]
             if stubs:
                 out.append(("true-return-but-stub-reachable", f"{op}: stubs {stubs}"))
+        if ret is True and op[0] == "min" and op[3] and op[2] is None:
+            # minimal-space expansion with skip_ignored and no size limit: every node it leaves unexpanded is skipped
+            import networkx as nx
+            start = op[1] if op[1] is not None else 0
+            reach = {start} | set(nx.descendants(sd.dag, start))
+            stubs = [i for i in reach if not sd.node_data(i)["expanded"]]
+            if stubs:
+                out.append(("true-return-but-stub-reachable", f"{op}: stubs {stubs} neither expanded nor skipped"))
         # (block / scc promise completion only when started on a fresh diagram: they do not descend below nodes that
         # were expanded before; C03 lists bfs, dfs, minimal and attractor-seed expansion as resumable from any state)
         if ret is True and (op[0] in ("aseeds",) or (op[0] == "min" and op[1] in (None, 0)) or (op[0] in ("block", "scc") and not prefix)):
